@@ -621,11 +621,11 @@ struct LcSim : Harness {
     std::vector<std::set<std::string>> defs(nver), imps(nver), ddefs(nver);
     auto push = [&](std::initializer_list<Json> l) { Json o = Json::array(); for (auto &x : l) o.push(x); ops.push(o); };
     for (int i = 0; i < nver; i++) {
-      Json mo = Json::object(), funcs = Json::array(); mo.set("name", prog::S("m%d", i)); mo.set("fwd_first", (int) r.coin());
+      Json mo = Json::object(), funcs = Json::array(); mo.set("name", prog::S("m%d", i)); mo.set("fwd_first", (int) r.coin()); mo.set("fwd_after", (int) r.chance(1, 3));
       for (auto nm : pool) if (r.chance(2, 5)) defs[i].insert(nm);
       for (auto nm : pool) if (!defs[i].count(nm) && r.chance(3, 5)) imps[i].insert(nm);
       static const char *dpool[] = {"d1", "d2"}; Json dataj = Json::array(); std::set<std::string> ddef;
-      for (auto dn : dpool) if (r.chance(1, 4)) { Json d = Json::object(); d.set("name", dn); d.set("val", salt += 7); d.set("exp", 1); dataj.push(d); ddef.insert(dn); ddefs[i].insert(dn); }
+      for (auto dn : dpool) if (r.chance(1, 4)) { Json d = Json::object(); d.set("name", dn); d.set("val", salt += 7); d.set("exp", 1); if (r.chance(1, 3)) d.set("multi", 1); dataj.push(d); ddef.insert(dn); ddefs[i].insert(dn); }
       if (dataj.size()) mo.set("data", dataj);
       for (auto &nm : defs[i]) {
         Json f = Json::object(), b = Json::array(); f.set("name", nm); f.set("salt", salt += 7); f.set("na", 1); f.set("nd", 0); f.set("fuel", 0); f.set("exp", 1);
@@ -697,7 +697,7 @@ struct LcSim : Harness {
     if (big) { go.sw = true; go.sw_weight = 30; go.recursion = false; }
     go.blocked = r.coin();
     prog::Generator g(r, go); Json prog = g.program(); prog::protect_fuel(prog);
-    for (auto &mo : prog["mods"].a) { mo.set("fwd_first", (int) r.coin()); mo.set("rev", (int) r.coin()); mo.set("cmacros", (int) r.coin()); mo.set("cdecls", (int) r.coin()); }
+    for (auto &mo : prog["mods"].a) { mo.set("fwd_first", (int) r.coin()); mo.set("rev", (int) r.coin()); mo.set("cmacros", (int) r.coin()); mo.set("cdecls", (int) r.coin()); mo.set("fwd_after", (int) r.chance(1, 4)); }
     Json ops = Json::array(); size_t nm = prog.at("mods").size();
     auto push = [&](std::initializer_list<Json> l) { Json o = Json::array(); for (auto &x : l) o.push(x); ops.push(o); };
     std::vector<std::string> names; for (auto &mo : prog.at("mods").a) for (auto &f : mo.at("funcs").a) names.push_back(f.gets("name"));
